@@ -61,6 +61,17 @@ build_noasm() {
   (cd "$n" && go build -tags noasm -o "$SCRATCH/noasmread" . ) || die "noasm reader build failed"
 }
 
+# instrumented build: the scratch copy is rewritten by cmd/vinstr to run under verif/vsched
+build_sched() {
+  copy_src "$SCRATCH/simdjson_i"
+  (cd "$VERIF" && go build -o "$SCRATCH/vinstr" ./cmd/vinstr) || die "vinstr build failed"
+  "$SCRATCH/vinstr" "$SCRATCH/simdjson_i" > "$SCRATCH/vinstr.log" 2>&1 || { cat "$SCRATCH/vinstr.log"; die "instrumentation failed"; }
+  (cd "$SCRATCH/simdjson_i" && go mod edit -require=verif@v0.0.0) || die "go mod edit failed"
+  make_harness_mod "$SCRATCH/hs" "$SCRATCH/simdjson_i"
+  cp "$VERIF"/hsched/*.go "$SCRATCH/hs/"
+  (cd "$SCRATCH/hs" && go build -tags vsched_harness -o "$SCRATCH/vharness_i" . ) || die "instrumented harness build failed"
+}
+
 src_id() {
   (cd "$REPO" && { git rev-parse --short HEAD 2>/dev/null; git status --porcelain 2>/dev/null | grep -v '^??' | sha256sum | cut -c1-8; } | tr '\n' '+' | sed 's/+$//')
 }
@@ -71,12 +82,24 @@ case "$cmd" in
     # build once to warm the Go build cache (plain, noasm, race variants are added as the checks need them)
     build_plain
     build_noasm
+    build_sched
     "$SCRATCH/vharness" selftest || die "oracle self-test failed"
     echo "setup ok"
     ;;
   replay)
+    case "$(grep -o '"property": *"C[0-9]*"' "$2" | grep -o 'C[0-9]*')" in
+      C07|C09|C20)
+        build_sched
+        GOMAXPROCS=2 "$SCRATCH/vharness_i" replay "$2"
+        exit $?;;
+    esac
     build_plain
     "$SCRATCH/vharness" replay "$2"
+    exit $?
+    ;;
+  C07|C09|C20)
+    build_sched
+    GOMAXPROCS=2 "$SCRATCH/vharness_i" "$cmd" "$tier"
     exit $?
     ;;
   C11)
